@@ -6,7 +6,10 @@
 //       l1 = ST::format_latin_1(fmt, args…)
 //       ev = ST::apply_format(recording format_writer, args…): the exact sequence of sink calls
 // args: i8 i16 i32 il ill u8 u16 u32 ul ull c wc c8 c16 c32 b (":"value, decimal), cs S ss sv (":"hex bytes:
-//       const char*, ST::string, std::string, std::string_view), cn (null const char*), d fl (":"IEEE bits hex).
+//       const char*, ST::string, std::string, std::string_view), cn (null const char*), d fl (":"IEEE bits hex),
+//       wide / char8_t text: p16 p32 pw p8 (const char16_t* / char32_t* / wchar_t* / char8_t*, NUL-terminated),
+//       s16 s32 sw s8 (std::basic_string), v16 v32 vw v8 (std::basic_string_view) (":"hex units of that width),
+//       n16 n32 nw n8 (null pointers).
 // The format string lives in an exact-size heap block ending in its NUL, so ASan reports a read
 // one byte behind the terminator.  Floating-point renderings are not modelled (C13): for each
 // floating argument the harness supplies libc's rendering for every (sign flag, precision, class)
@@ -24,6 +27,7 @@ struct AnyArg {
     long long sv = 0; unsigned long long uv = 0;
     std::string bytes; double d = 0; float f = 0;
     ST::string st;
+    std::u16string u16; std::u32string u32; std::wstring ws; std::u8string u8;
 };
 // user-defined formatter (the documented extension point): forwards to the library's own
 // overload for the C++ type named by `kind`, selected by ordinary overload resolution
@@ -50,6 +54,22 @@ inline void format_type(const ST::format_spec &format, ST::format_writer &output
     else if (k == "S") ST::format_type(format, output, a.st);
     else if (k == "ss") ST::format_type(format, output, a.bytes);
     else if (k == "sv") ST::format_type(format, output, std::string_view(a.bytes));
+    else if (k == "p16") ST::format_type(format, output, (const char16_t *)a.u16.c_str());
+    else if (k == "s16") ST::format_type(format, output, a.u16);
+    else if (k == "v16") ST::format_type(format, output, std::u16string_view(a.u16));
+    else if (k == "n16") ST::format_type(format, output, (const char16_t *)nullptr);
+    else if (k == "p32") ST::format_type(format, output, (const char32_t *)a.u32.c_str());
+    else if (k == "s32") ST::format_type(format, output, a.u32);
+    else if (k == "v32") ST::format_type(format, output, std::u32string_view(a.u32));
+    else if (k == "n32") ST::format_type(format, output, (const char32_t *)nullptr);
+    else if (k == "pw") ST::format_type(format, output, (const wchar_t *)a.ws.c_str());
+    else if (k == "sw") ST::format_type(format, output, a.ws);
+    else if (k == "vw") ST::format_type(format, output, std::wstring_view(a.ws));
+    else if (k == "nw") ST::format_type(format, output, (const wchar_t *)nullptr);
+    else if (k == "p8") ST::format_type(format, output, (const char8_t *)a.u8.c_str());
+    else if (k == "s8") ST::format_type(format, output, a.u8);
+    else if (k == "v8") ST::format_type(format, output, std::u8string_view(a.u8));
+    else if (k == "n8") ST::format_type(format, output, (const char8_t *)nullptr);
     else if (k == "d") ST::format_type(format, output, a.d);
     else if (k == "fl") ST::format_type(format, output, a.f);
 }
@@ -64,6 +84,11 @@ static AnyArg parse_arg(const std::string &tok) {
     std::string v = c == std::string::npos ? "" : tok.substr(c + 1);
     const std::string &k = a.kind;
     if (k == "cs" || k == "S" || k == "ss" || k == "sv") { a.bytes = parse_bytes(v); if (k == "S") a.st = raw_string(a.bytes); }
+    else if (k == "p16" || k == "s16" || k == "v16") { for (uint64_t u : parse_units(v, 16)) a.u16.push_back((char16_t)u); }
+    else if (k == "p32" || k == "s32" || k == "v32") { for (uint64_t u : parse_units(v, 32)) a.u32.push_back((char32_t)u); }
+    else if (k == "pw" || k == "sw" || k == "vw") { for (uint64_t u : parse_units(v, 32)) a.ws.push_back((wchar_t)u); }
+    else if (k == "p8" || k == "s8" || k == "v8") { for (char ch : parse_bytes(v)) a.u8.push_back((char8_t)ch); }
+    else if (k == "n16" || k == "n32" || k == "nw" || k == "n8") { }
     else if (k == "d") { uint64_t b = strtoull(v.c_str(), nullptr, 16); memcpy(&a.d, &b, 8); }
     else if (k == "fl") { uint32_t b = (uint32_t)strtoul(v.c_str(), nullptr, 16); memcpy(&a.f, &b, 4); }
     else if (k[0] == 'u' || k == "c8" || k == "c16" || k == "c32" || k == "b") a.uv = strtoull(v.c_str(), nullptr, 10);
@@ -148,6 +173,22 @@ static std::string call_typed1(const std::string &route, const std::string &m, c
     if (k == "S") return call_route(route, m, f, a.st);
     if (k == "ss") return call_route(route, m, f, a.bytes);
     if (k == "sv") return call_route(route, m, f, std::string_view(a.bytes));
+    if (k == "p16") return call_route(route, m, f, (const char16_t *)a.u16.c_str());
+    if (k == "s16") return call_route(route, m, f, a.u16);
+    if (k == "v16") return call_route(route, m, f, std::u16string_view(a.u16));
+    if (k == "n16") return call_route(route, m, f, (const char16_t *)nullptr);
+    if (k == "p32") return call_route(route, m, f, (const char32_t *)a.u32.c_str());
+    if (k == "s32") return call_route(route, m, f, a.u32);
+    if (k == "v32") return call_route(route, m, f, std::u32string_view(a.u32));
+    if (k == "n32") return call_route(route, m, f, (const char32_t *)nullptr);
+    if (k == "pw") return call_route(route, m, f, (const wchar_t *)a.ws.c_str());
+    if (k == "sw") return call_route(route, m, f, a.ws);
+    if (k == "vw") return call_route(route, m, f, std::wstring_view(a.ws));
+    if (k == "nw") return call_route(route, m, f, (const wchar_t *)nullptr);
+    if (k == "p8") return call_route(route, m, f, (const char8_t *)a.u8.c_str());
+    if (k == "s8") return call_route(route, m, f, a.u8);
+    if (k == "v8") return call_route(route, m, f, std::u8string_view(a.u8));
+    if (k == "n8") return call_route(route, m, f, (const char8_t *)nullptr);
     if (k == "d") return call_route(route, m, f, a.d);
     if (k == "fl") return call_route(route, m, f, a.f);
     return "bad-kind";
@@ -261,11 +302,31 @@ static const std::vector<std::string> INT_KINDS = {"i8", "i16", "i32", "il", "il
 static const std::vector<std::string> STR_KINDS = {"cs", "S", "ss", "sv"};
 static const std::vector<std::string> TEXTS = {"", "a", "hello", "\xC3\xA9", "h\xC3\xA9llo w\xC3\xB6rld", "\xE2\x82\xAC" "5", "0123456789abcdefXYZ", "\x80", "tab\there", "{}"};
 
+// wide / char8_t text arguments: well-formed text of every encoded width, a surrogate pair, the reversed pair the
+// library tolerates, malformed text (lone surrogate, value above 10FFFF: unicode_error under the default validation),
+// an embedded zero unit (pointer kinds see the text in front of it)
+static const std::vector<std::string> W16_KINDS = {"p16", "s16", "v16"};
+static const std::vector<std::string> W32_KINDS = {"p32", "s32", "v32", "pw", "sw", "vw"};
+static const std::vector<std::string> U8_KINDS = {"p8", "s8", "v8"};
+static const std::vector<std::string> NULL_KINDS = {"n16", "n32", "nw", "n8"};
+static const std::vector<std::string> W16_TEXTS = {"-", "0061", "00e9", "d83dde00", "d800", "20ac0035", "dc00d83d", "006800e9006c006c006f00200077", "0061d83dde000062", "004100000042", "00e920acd83dde00"};
+static const std::vector<std::string> W32_TEXTS = {"-", "00000061", "000000e9", "0001f600", "00110000", "000020ac00000035", "0000d800", "00000068000000e90000006c0000006c0000006f", "000000610001f60000000062", "000000410000000000000042", "ffffffff"};
+static std::string random_wide_arg(Rng &rng) {
+    switch (rng.below(8)) {
+    case 0: case 1: case 2: return arg_tok(rng.pick(W16_KINDS), rng.pick(W16_TEXTS));
+    case 3: case 4: case 5: return arg_tok(rng.pick(W32_KINDS), rng.pick(W32_TEXTS));
+    case 6: return arg_tok(rng.pick(U8_KINDS), hex_bytes(rng.pick(TEXTS)));
+    default: return rng.pick(NULL_KINDS);
+    }
+}
+
 static std::string random_arg(Rng &rng, bool allow_float) {
-    unsigned c = (unsigned)rng.below(allow_float ? 12 : 10);
+    unsigned c = (unsigned)rng.below(allow_float ? 14 : 12);
     if (c < 6) { const std::string &k = rng.pick(INT_KINDS); return arg_tok(k, rng.pick(int_values(k))); }
     if (c < 9) { const std::string &k = rng.pick(STR_KINDS); return arg_tok(k, hex_bytes(rng.pick(TEXTS))); }
     if (c == 9) return "cn";
+    if (c == 10 || c == 11) return random_wide_arg(rng);
+    c -= 2;
     static const std::vector<double> DV = {0.0, -0.0, 1.5, -2.25, 1e10, 123456.789, 1e-5, INFINITY, NAN, 1e15, -1e15, 0.1, 1e-300, 1e100, -1e300, 1e62, 1e63};
     if (c == 10) return arg_tok("d", dbits(rng.pick(DV)));
     static const std::vector<float> FV = {0.0f, 1.5f, -2.25f, 16777216.0f, 0.1f, INFINITY, 3.4e38f};
@@ -408,10 +469,12 @@ static void gen_c10(Gen &g) {
         {"i32:65"}, {"ill:-9223372036854775808", "cs:6869"}, {"c:65", "b:1", "S:c3a9"}, {"d:" + dbits(1.5)}, {"cn", "u32:4000000000"},
         {"S:68656c6c6f", "i32:-7", "c:-128"}, {"u32:0"}, {"cs:68c3a96c6c6f", "d:" + dbits(-0.25)}, {"b:0", "ull:18446744073709551615", "wc:8364"},
         {"c16:55296"}, {"sv:414243", "i8:-128"}, {"fl:" + fbits(2.5f), "i16:-1", "cn"},
+        {"p16:00e9d83dde00", "n32"}, {"s32:0001f60000000041", "v16:d800"}, {"pw:00000068000000e9", "s8:c3a9", "nw"}, {"vw:00110000", "p8:6869"},
     };
     // text arguments ignore the character class: no assertion possible
     const std::vector<std::vector<std::string>> text_pool = {
         {"cs:6869"}, {"S:c3a9", "b:1"}, {"cn", "sv:414243"}, {"b:0", "ss:68656c6c6f", "cs:78"},
+        {"s16:00e920ac", "p32:0001f600"}, {"v8:68c3a9", "n16", "sw:00000041"},
     };
     int maxlen = thorough ? 5 : 4;
     // every string over the critical alphabet up to length 4 (quick) / 5 (thorough); slices own whole
@@ -570,9 +633,18 @@ static void gen_c11(Gen &g) {
     std::vector<std::string> text_args;
     for (const std::string &t : TEXTS) for (const std::string &kd : STR_KINDS) { if (kd == "cs" && t.find('\0') != std::string::npos) continue; text_args.push_back(arg_tok(kd, hex_bytes(t))); }
     text_args.push_back("b:1"); text_args.push_back("b:0"); text_args.push_back("cn");
-    for (const std::string &arg : text_args) {
+    size_t narrow_args = text_args.size();
+    // wide and char8_t text (pointer, std::basic_string, std::basic_string_view; null pointers)
+    for (const std::string &t : W16_TEXTS) for (const std::string &kd : W16_KINDS) text_args.push_back(arg_tok(kd, t));
+    for (const std::string &t : W32_TEXTS) for (const std::string &kd : W32_KINDS) text_args.push_back(arg_tok(kd, t));
+    for (const std::string &t : TEXTS) for (const std::string &kd : U8_KINDS) text_args.push_back(arg_tok(kd, hex_bytes(t)));
+    for (const std::string &kd : NULL_KINDS) text_args.push_back(kd);
+    for (size_t ai = 0; ai < text_args.size(); ++ai) {
+        const std::string &arg = text_args[ai];
+        bool extra = ai >= narrow_args;         // the added kinds are sampled more thinly in the quick tier
         AnyArg pa = parse_arg(arg);
         long tl = pa.kind == "b" ? (pa.uv ? 4 : 5) : (long)pa.bytes.size();
+        if (extra) tl = (long)natural_len(FieldParts(), arg);
         std::vector<long> widths = {0, tl - 1, tl, tl + 1, 40};
         std::vector<std::string> precs = {"", ".0", ".1", "." + std::to_string(tl), "." + std::to_string(tl > 0 ? tl - 1 : 0), ".100", ".", ".-1", ". 2", ".+2", ".4294967298"};
         for (const std::string &al : aligns)
@@ -582,7 +654,8 @@ static void gen_c11(Gen &g) {
                         for (const char *cls : {"", "c", "x", "+#"}) {
                             ++combo;
                             if (w < 0) continue;
-                            if (!thorough && (combo * 2654435761ULL + g.opt.seed) % 3 != 0) continue;
+                            if (!thorough && (combo * 2654435761ULL + g.opt.seed) % (extra ? 9 : 3) != 0) continue;
+                            if (thorough && extra && (combo * 2654435761ULL + g.opt.seed) % 2 != 0) continue;
                             FieldParts f; f.align = al; f.pad = pd; f.width = w ? std::to_string(w) : ""; f.prec = pr;
                             if (std::string(cls) == "+#") { f.plus = "+"; f.hash = "#"; } else f.cls = cls;
                             unsigned order = (unsigned)(combo % 4);
